@@ -132,6 +132,8 @@ fn run_lib_case(o: &mut Out, fe: &str, f: &AFilter, ms: &[AMsg], pred: Option<&[
 /// ECU:APID:CTID through the `adlt convert` binary: the messages are written to a DLT file, `--eac=<expr> -s` prints the
 /// selected ones (one positive filter: a message is selected iff the filter matches it)
 struct EacTask {
+    /// "eac": --eac=<expr>; "conv": -f <dlt-convert list file>; "dlf": -f <DLF file>
+    mode: &'static str,
     f: AFilter,
     ms: Vec<AMsg>,
     pred: Option<Vec<bool>>,
@@ -141,8 +143,19 @@ struct EacTask {
 }
 
 fn eac_exec(adlt: &str, tmp: &str, id: usize, t: &EacTask) -> Result<HashSet<usize>, String> {
-    let expr = render_eac(&t.f, t.short);
     let path = format!("{}/eac_{}.dlt", tmp, id);
+    let fpath = format!("{}/eac_{}.flt", tmp, id);
+    let farg: Vec<String> = match t.mode {
+        "eac" => vec![format!("--eac={}", render_eac(&t.f, t.short))],
+        "conv" => {
+            std::fs::write(&fpath, render_conv(&[&t.f])).expect("write filter file");
+            vec!["-f".to_string(), fpath.clone()]
+        }
+        _ => {
+            std::fs::write(&fpath, render_dlf_file("", &[&t.f], if t.short { DlfStyle::Minimal } else { DlfStyle::Full })).expect("write filter file");
+            vec!["-f".to_string(), fpath.clone()]
+        }
+    };
     {
         let mut w = std::io::BufWriter::new(std::fs::File::create(&path).expect("create dlt file"));
         for (i, m) in t.ms.iter().enumerate() {
@@ -152,8 +165,9 @@ fn eac_exec(adlt: &str, tmp: &str, id: usize, t: &EacTask) -> Result<HashSet<usi
         }
         w.flush().unwrap();
     }
-    let out = std::process::Command::new(adlt).arg("convert").arg(format!("--eac={}", expr)).arg("-s").arg(&path).env("TZ", "UTC").output();
+    let out = std::process::Command::new(adlt).arg("convert").args(&farg).arg("-s").arg(&path).env("TZ", "UTC").output();
     let _ = std::fs::remove_file(&path);
+    let _ = std::fs::remove_file(&fpath);
     match out {
         Ok(x) if x.status.success() => {
             let mut selected = HashSet::new();
@@ -195,8 +209,21 @@ fn run_eac_tasks(o: &mut Out, adlt: &str, tmp: &str, tasks: &[EacTask]) {
     for (t, r) in tasks.iter().zip(results.into_iter()) {
         let case = o.case;
         o.case += 1;
-        o.bump("cases_eac", 1);
-        let hdr = json!({"fe": "eac", "f": t.f, "src": t.src, "text": render_eac(&t.f, t.short)});
+        o.bump(&format!("cases_binary_{}", t.mode), 1);
+        if t.mode == "eac" {
+            o.bump("cases_eac", 1);
+        }
+        let fe = match t.mode {
+            "eac" => "eac",
+            "conv" => "conv",
+            _ => if t.short { "dlfa" } else { "dlf" },
+        };
+        let text = match t.mode {
+            "eac" => render_eac(&t.f, t.short),
+            "conv" => render_conv(&[&t.f]),
+            _ => "DLF file".to_string(),
+        };
+        let hdr = json!({"fe": fe, "f": t.f, "src": t.src, "via": format!("adlt convert {}", if t.mode == "eac" { "--eac" } else { "-f" }), "text": text});
         let selected = match r.unwrap() {
             Ok(s) => s,
             Err(msg) => {
@@ -502,6 +529,7 @@ fn main() {
     let sample_msgs = a.num("--sample-msgs", 24) as usize;
 
     let mut eac_tasks: Vec<EacTask> = Vec::new();
+    let ffile_one_in = a.num("--ffile-one-in", 25).max(1);
     if let Some(file) = a.get("--scenarios") {
         // pass 1 (streaming): lay out the cases, then choose the sampled ones and the eac cases that are run
         #[derive(serde::Deserialize)]
@@ -555,9 +583,22 @@ fn main() {
               ms0.push(serde_json::from_value(e["m"].clone()).expect("msg"));
               pred0.push(e["exp"].as_bool().expect("exp"));
           }
+          let f0 = f;
           for fe in &fes {
             let fe = fe.as_str();
             let (ms, pred) = (ms0.clone(), pred0.clone());
+            // the kind of a filter (positive / negative / marker / event) is no criterion: Match does not depend on it, so
+            // the front-ends that can write a kind get all four of them
+            let mut f = f0.clone();
+            if fe != "conv" && fe != "eac" {
+                f.kind = (pi % 4) as u32;
+            }
+            // `adlt convert -f <file>`: dlt-convert lists and DLF files (one enabled positive filter without payload
+            // criterion: a message is selected iff the filter matches it), for a seeded subset
+            if adlt.is_some() && f0.enabled && f0.pay.k == "none" && (fe == "conv" || fe == "dlf" || fe == "dlfa")
+                && (fe == "conv" || rng.below(ffile_one_in) == 0) && ms.len() <= 64 {
+                eac_tasks.push(EacTask { mode: if fe == "conv" { "conv" } else { "dlf" }, f: f0.clone(), ms: ms.clone(), pred: Some(pred.clone()), sampled: false, short: fe == "dlfa", src: "tlc" });
+            }
             let is_sampled = sampled.contains(&pi);
             if is_sampled && ms.len() > sample_msgs {
                 // a sampled case is written in full; long message lists are thinned to a random subset for it
@@ -571,7 +612,7 @@ fn main() {
                 let ms2: Vec<AMsg> = keep.iter().map(|i| ms[*i].clone()).collect();
                 let pred2: Vec<bool> = keep.iter().map(|i| pred[*i]).collect();
                 if fe == "eac" {
-                    eac_tasks.push(EacTask { f: f.clone(), ms: ms2, pred: Some(pred2), sampled: true, short: pi % 2 == 0, src: "tlc-sample" });
+                    eac_tasks.push(EacTask { mode: "eac", f: f.clone(), ms: ms2, pred: Some(pred2), sampled: true, short: pi % 2 == 0, src: "tlc-sample" });
                 } else {
                     run_lib_case(&mut o, fe, &f, &ms2, Some(&pred2), true, "tlc-sample");
                 }
@@ -582,7 +623,7 @@ fn main() {
             let full_sample = is_sampled && ms.len() <= sample_msgs;
             if fe == "eac" {
                 if eac_run.contains(&pi) {
-                    eac_tasks.push(EacTask { f: f.clone(), ms, pred: Some(pred), sampled: full_sample, short: pi % 2 == 1, src: "tlc" });
+                    eac_tasks.push(EacTask { mode: "eac", f: f.clone(), ms, pred: Some(pred), sampled: full_sample, short: pi % 2 == 1, src: "tlc" });
                 }
             } else {
                 run_lib_case(&mut o, fe, &f, &ms, Some(&pred), full_sample, "tlc");
@@ -601,19 +642,23 @@ fn main() {
         let f = gen_filter(&mut rng, fe, nchars);
         let ms: Vec<AMsg> = (0..n_msgs).map(|_| gen_msg(&mut rng, &f, nchars)).collect();
         run_lib_case(&mut o, fe, &f, &ms, None, true, "random");
+        if fe == "conv" && adlt.is_some() {
+            // the same dlt-convert list through `adlt convert -f`
+            eac_tasks.push(EacTask { mode: "conv", f: f.clone(), ms: ms.clone(), pred: None, sampled: true, short: false, src: "random" });
+        }
         o.bump("random_cases", 1);
         // a few random id-only filters also through the binary
         if adlt.is_some() {
             if i < a.num("--random-eac", 0) {
                 let mut g = gen_filter(&mut rng, "jsona", nchars);
-                g = AFilter { enabled: true, not: false, typ: no_type(), lmin: -1, lmax: -1, pay: no_pay(), lcs: no_lcs(), ..g };
+                g = AFilter { kind: 0, enabled: true, not: false, typ: no_type(), lmin: -1, lmax: -1, pay: no_pay(), lcs: no_lcs(), ..g };
                 let ms: Vec<AMsg> = (0..n_msgs * 2)
                     .map(|_| {
                         let m = gen_msg(&mut rng, &g, nchars);
                         AMsg { vmm: if m.ext { 0x41 } else { 0 }, text: vec![], ..m }
                     })
                     .collect();
-                eac_tasks.push(EacTask { f: g, ms, pred: None, sampled: true, short: i % 2 == 0, src: "random" });
+                eac_tasks.push(EacTask { mode: "eac", f: g, ms, pred: None, sampled: true, short: i % 2 == 0, src: "random" });
                 o.bump("random_cases", 1);
             }
         }
